@@ -72,10 +72,14 @@ func TestVerifC17MM(t *testing.T) {
 	}
 	key := []byte("link-key-link-key-link-key-link!")[:32]
 	for _, interval := range []stdtime.Duration{stdtime.Second, 2 * stdtime.Second} {
-		ops := []mmOp{{Kind: "P.register"}, {Kind: "Q.register"}, {Kind: "P->Q"}, {Kind: "Q->P"}, {Kind: "advance", Arg: 1}, {Kind: "advance", Arg: 2}, {Kind: "advance", Arg: 3}, {Kind: "foreign->Q"}}
+		ops := []mmOp{{Kind: "P.register"}, {Kind: "Q.register"}, {Kind: "P->Q"}, {Kind: "Q->P"}, {Kind: "advance", Arg: 1}, {Kind: "advance", Arg: 2}, {Kind: "advance", Arg: 3}, {Kind: "foreign->Q"}, {Kind: "P.send"}, {Kind: "Q.receive"}}
 		type world struct {
 			P, Q       *side
 			pReg, qReg bool
+			// a head-exchange message of P that is still in flight (P.send ... Q.receive), and the period it was made in
+			inFlight       []byte
+			inFlightPeriod int64
+			qResolved      map[int64]bool // periods in which Q itself resolved the topic (registration or own marshal)
 		}
 		apply := func(w *world, op mmOp) (string, string) {
 			now := vtime.Now()
@@ -112,11 +116,43 @@ func TestVerifC17MM(t *testing.T) {
 				w.Q.rp.RegisterRotation(now, topic, key)
 				w.qReg = true
 				w.Q.resolvedIn = period(now, interval)
+				w.qResolved[period(now, interval)] = true
+			case "P.send":
+				if !w.pReg {
+					return "", ""
+				}
+				payload, err := w.P.m.Marshal(&iface.MessageExchangeHeads{Address: topic})
+				if err != nil {
+					return "C17/marshal-failed", fmt.Sprintf("P cannot marshal at t0+%d: %v", now.Unix()-t0.Unix(), err)
+				}
+				w.P.resolvedIn = period(now, interval)
+				w.inFlight, w.inFlightPeriod = payload, period(now, interval)
+			case "Q.receive":
+				if w.inFlight == nil {
+					return "", ""
+				}
+				var out iface.MessageExchangeHeads
+				uerr := w.Q.m.Unmarshal(w.inFlight, &out)
+				cur := period(now, interval)
+				sec := int64(interval / stdtime.Second)
+				// the message was made one period ago at most (the grace period is far longer than these histories)
+				must := w.qReg && w.qResolved[w.inFlightPeriod] && cur-w.inFlightPeriod <= sec
+				rep.Eval(fmt.Sprintf("marshaler/in-flight/periods-late=%d/receiver-knew-that-period=%v/accepted=%v", (cur-w.inFlightPeriod)/sec, w.qResolved[w.inFlightPeriod], uerr == nil))
+				if must && uerr != nil {
+					return "C17/head-exchange-in-flight-refused", fmt.Sprintf("P's head-exchange message made in the period starting at t0+%d reaches Q at t0+%d (Q resolved the topic in that period too, grace period not over): refused: %v", w.inFlightPeriod-t0.Unix(), now.Unix()-t0.Unix(), uerr)
+				}
+				if uerr == nil && out.Address != topic {
+					return "C17/head-exchange-wrong-topic", "message mapped to " + out.Address
+				}
+				w.inFlight = nil
 			case "advance":
 				vtime.Advance(stdtime.Duration(op.Arg) * stdtime.Second)
 			case "P->Q":
 				return send(w.P, w.Q, w.pReg, w.qReg, "P", "Q")
 			case "Q->P":
+				if w.qReg {
+					w.qResolved[period(now, interval)] = true
+				}
 				return send(w.Q, w.P, w.qReg, w.pReg, "Q", "P")
 			case "foreign->Q":
 				// a sender with another link key (another seed) for the same address
@@ -146,7 +182,7 @@ func TestVerifC17MM(t *testing.T) {
 			for _, op := range ops {
 				nh := append(append([]mmOp{}, hist...), op)
 				vtime.Enable(t0, 0)
-				w := &world{P: newSide(interval, "P", key), Q: newSide(interval, "Q", key)}
+				w := &world{P: newSide(interval, "P", key), Q: newSide(interval, "Q", key), qResolved: map[int64]bool{}}
 				bad := false
 				for i, o := range nh {
 					sig, desc := apply(w, o)
